@@ -200,7 +200,7 @@ pub fn check(case: &C16Case, st: &mut Stats) -> Verdict {
     let presentation = must_ok("mock:create_presentation", sut::present(&t1, spec.fmt, &case.selection, None))?;
     let got = must_ok("mock:SDJWTVerifier::new", sut::verify(&presentation, spec.fmt, spec.alg, None))?;
     let expected = expected_claims(&tree, &sel.paths, spec.holder);
-    if got != expected {
+    if crate::exact::differs(&got, &expected) {
         return Err(Failure::new(
             "mock:mismatch:verified_claims",
             format!("[deterministic-salt build] verified claims differ from the selected view\n  expected: {}\n  got:      {}\n  issued: {}", expected, got, sut::clip(&t1, 4000)),
